@@ -211,7 +211,19 @@ fn sqrt_precomp<F: Field>(r: &mut Rec, o: &Option<SqrtPrecomputation<F>>) {
 trait ExtDump {
     fn dump(krate: &str, name: &str, kind: &str, base: &str) -> Rec;
 }
-impl<P: QuadExtConfig> ExtDump for QuadExtField<P> {
+/// the `FftField` constants of an extension field, read through the trait of the extension type itself
+fn fft_consts<F: FftField>(r: &mut Rec) {
+    r.put("FFT_GENERATOR", vf(&F::GENERATOR));
+    r.put("FFT_TWO_ADICITY", vu64(F::TWO_ADICITY as u64));
+    r.put("FFT_TWO_ADIC_ROOT_OF_UNITY", vf(&F::TWO_ADIC_ROOT_OF_UNITY));
+    r.put("FFT_SMALL_SUBGROUP_BASE", vopt(F::SMALL_SUBGROUP_BASE, |x| vu64(x as u64)));
+    r.put("FFT_SMALL_SUBGROUP_BASE_ADICITY", vopt(F::SMALL_SUBGROUP_BASE_ADICITY, |x| vu64(x as u64)));
+    r.put("FFT_LARGE_SUBGROUP_ROOT_OF_UNITY", vopt(F::LARGE_SUBGROUP_ROOT_OF_UNITY, |x| vf(&x)));
+}
+impl<P: QuadExtConfig> ExtDump for QuadExtField<P>
+where
+    P::BaseField: FftField,
+{
     fn dump(krate: &str, name: &str, kind: &str, base: &str) -> Rec {
         let mut r = Rec::new(krate, kind, name);
         r.put("base", V::S(base.into()));
@@ -220,10 +232,14 @@ impl<P: QuadExtConfig> ExtDump for QuadExtField<P> {
         r.put("DEGREE", vu64(P::DEGREE_OVER_BASE_PRIME_FIELD as u64));
         r.put("NONRESIDUE", vf(&P::NONRESIDUE));
         r.put("FROBENIUS_COEFF_C1", vfs(P::FROBENIUS_COEFF_C1));
+        fft_consts::<Self>(&mut r);
         r
     }
 }
-impl<P: CubicExtConfig> ExtDump for CubicExtField<P> {
+impl<P: CubicExtConfig> ExtDump for CubicExtField<P>
+where
+    P::BaseField: FftField,
+{
     fn dump(krate: &str, name: &str, kind: &str, base: &str) -> Rec {
         let mut r = Rec::new(krate, kind, name);
         r.put("base", V::S(base.into()));
@@ -233,6 +249,7 @@ impl<P: CubicExtConfig> ExtDump for CubicExtField<P> {
         r.put("NONRESIDUE", vf(&P::NONRESIDUE));
         r.put("FROBENIUS_COEFF_C1", vfs(P::FROBENIUS_COEFF_C1));
         r.put("FROBENIUS_COEFF_C2", vfs(P::FROBENIUS_COEFF_C2));
+        fft_consts::<Self>(&mut r);
         r
     }
 }
